@@ -118,6 +118,15 @@ func (obj *NormalEstimator) updateEstimate() error {
     sum_s += obj.sum_s[i]
     sum_g += obj.sum_g[i]
   }
+  // without any observation of positive weight the estimate is
+  // undefined (0/0), keep the current parameters
+  // (all weights -Inf: sum_g is NaN)
+  if !(sum_g > 0.0) {
+    obj.sum_g = nil
+    obj.sum_m = nil
+    obj.sum_s = nil
+    return nil
+  }
   s1 := sum_m/float64(sum_g)
   s2 := sum_s/float64(sum_g)
 
